@@ -227,8 +227,13 @@ def run(res, tier):
     s = z3.Solver()
     created0 = z3.Int("created_seen_by_client_ns")
     now1 = z3.Int("now_at_mark_update_done_ns")
-    s.add(created0 >= NS, now1 >= created0)           # the clock does not run backwards
-    s.add(now1 <= 4 * 10 ** 18)                       # instants up to the year 2096 (i64 timestamps do not wrap)
+    # the clock does not run backwards - but `created` may be ahead of it: mark_update_done advances `created` by a
+    # second for each run that ends within the second of the previous one (up to 3 such bumps are modelled)
+    s.add(created0 >= 4 * NS, created0 < 8 * NS, now1 >= created0 - 3 * NS)
+    # the code only compares instants and adds whole seconds, so it is invariant under translation by whole
+    # seconds: an 8-second window of instants with every sub-second part represents all histories (no i64 wrap)
+    s.add(now1 <= created0 + 4 * NS)
+    s.set("timeout", 300000)
     lm0 = (created0 / NS) * NS                        # what Last-Modified conveys: whole seconds
     has_inm, has_ims = z3.Bool("sends_etag"), z3.Bool("sends_if_modified_since")
     s.add(z3.Or(has_inm, has_ims))
@@ -246,7 +251,13 @@ def run(res, tier):
     findings = []
     s.push()
     s.add(not_modified, version_differs)
-    while s.check() == z3.sat and len(findings) < 4:
+    while len(findings) < 4:
+        r_ = s.check()
+        if r_ == z3.unknown:
+            res.inconclusive.append("history model: z3 gave no answer within 300 s")
+            break
+        if r_ != z3.sat:
+            break
         m = s.model()
         where = m.eval(at, True).as_long()
         zero_ns = (m.eval(created0, True).as_long() % NS) == 0
@@ -293,7 +304,7 @@ def run(res, tier):
     res.distinct += 3 + len(findings)
     res.bounds.append("one validation run (data-changing or not) after the client's fetch; the request arrives before the run, in the window "
                       "between update() and mark_update_done(), or afterwards; any subset of {If-None-Match, If-Modified-Since} of the "
-                      "validators the client was given; clock values are arbitrary non-decreasing nanosecond instants")
+                      "validators the client was given; clock values are arbitrary non-decreasing nanosecond instants within an 8-second window (the code is invariant under translation by whole seconds); the stored `created` may be up to 3 s ahead of the clock (earlier same-second bumps)")
     res.assumptions += ["ETag = \"session-serial\" is injective in the serial (format string read off http/payload.rs); Last-Modified and "
                         "If-Modified-Since have whole-second resolution (HTTP-date)",
                         "pieces taken from the code: the deciding comparison of maybe_not_modified (operator and operand roles), the "
